@@ -27,6 +27,8 @@
 #include "Compiler/include/ParserGenerator/lrparser.hpp"
 #include "Compiler/include/compiler.hpp"
 #include "Compiler/include/macro.hpp"
+#include "Compiler/include/parse.hpp"
+#include "Compiler/include/gen.hpp"
 #include "Compiler/include/scan.hpp"
 #include "VM/include/vm.hpp"
 
@@ -514,6 +516,25 @@ static void mode_macro(const Case &c) {
   OUT += ',';
   jkey("out");
   dump_tokens(mar.transformed_sequence);
+  if (c.opt("reapply", 0) != 0 && !abandoned) {
+    // the same definitions object and the same tokens handed to apply_macros again (extract once, expand several times):
+    // the second expansion must be the first one again
+    MacroApplicationResult again = apply_macros(mer.tokens, mer.macros, (unsigned)passes);
+    std::string a, b, saved;
+    saved.swap(OUT);
+    dump_tokens(mar.transformed_sequence);
+    OUT += '|';
+    dump_perrs(mar.errors);
+    a.swap(OUT);
+    dump_tokens(again.transformed_sequence);
+    OUT += '|';
+    dump_perrs(again.errors);
+    b.swap(OUT);
+    saved.swap(OUT);
+    OUT += ',';
+    jkey("reapply_same");
+    OUT += a == b ? "true" : "false";
+  }
 }
 
 // compile with KF1 abandonment + rewrite counting; returns false if abandoned
@@ -580,6 +601,37 @@ static void mode_compile(const Case &c) {
   OUT += ',';
   jkey("rewrites");
   jint(rewrites);
+  if (done && c.opt("stages", 0) != 0 && rewrites < 1000) {
+    // the same compilation through the lower-level entry points: parse once, generate code TWICE from the same tree;
+    // both results and compile()'s own must be identical (a generator must not leave traces in the tree it reads)
+    std::string d0, d1, d2;
+    {
+      CodegenResult cr0 = compile(c.files, c.main);
+      std::string saved;
+      saved.swap(OUT);
+      dump_compile(cr0, true);
+      d0.swap(OUT);
+      saved.swap(OUT);
+    }
+    ParseResult pr = parse(c.files, c.main);
+    for (int k = 0; k < 2; k++) {
+      CodegenResult g = gen(pr.a);
+      g.file_requests = pr.missing_files;
+      std::string saved;
+      saved.swap(OUT);
+      dump_compile(g, true);
+      (k ? d2 : d1).swap(OUT);
+      saved.swap(OUT);
+    }
+    pr.a.clear();
+    OUT += ',';
+    jkey("stages");
+    OUT += '[';
+    OUT += d1 == d2 ? "1" : "0";
+    OUT += ',';
+    OUT += d0 == d1 ? "1" : "0";
+    OUT += ']';
+  }
   if (heap && done && OUT.capacity() == cap) {
     OUT += ',';
     jkey("heap");
